@@ -16,6 +16,20 @@ def build_anthem():
         sys.exit(2)
     return ANTHEM
 
+def build_seedshim():
+    """LD_PRELOAD library that makes getrandom() a function of VERIF_HASH_SEED (std's RandomState
+    keys come from getrandom), so hash-map iteration order becomes a choice the harness owns.
+    Returns the path, or None when no C compiler is usable."""
+    so = f"{TARGET}/seedshim.so"
+    os.makedirs(TARGET, exist_ok=True)
+    for cc in ("cc", "gcc", "clang"):
+        try:
+            r = subprocess.run([cc, "-shared", "-fPIC", "-O1", "-o", so, f"{VERIF}/cli/seedshim.c"], stdout=subprocess.PIPE, stderr=subprocess.STDOUT)
+            if r.returncode == 0: return so
+        except FileNotFoundError:
+            pass
+    return None
+
 def scratch(prefix):
     base = os.environ.get("VERIF_SCRATCH", "/verif/scratch")
     os.makedirs(base, exist_ok=True)
